@@ -309,11 +309,20 @@ func main() {
 			pool.RunSolo(c)
 		}
 	}
+	// the panic witnesses come first in pinned.json: a few per child process
 	var rest []g12lib.Chunk
-	for i, p := range pinnedList {
+	nPlain := 0
+	for _, p := range pinnedList {
 		if p.Watchdog == 0 {
-			rest = append(rest, g12lib.Chunk{Gen: "pinned", Lo: i, Hi: i + 1})
+			nPlain++
 		}
+	}
+	for lo := 0; lo < nPlain; lo += 6 {
+		hi := lo + 6
+		if hi > nPlain {
+			hi = nPlain
+		}
+		rest = append(rest, g12lib.Chunk{Gen: "pinned", Lo: lo, Hi: hi})
 	}
 	pool.Run(rest)
 	for i, p := range pinnedList {
